@@ -662,4 +662,250 @@ Section Wiring.
       + destruct H1 as (Hi & Ht & _). rewrite Hs, Ht, Hi. unfold SortDefs.bd_value. reflexivity.
       + destruct H1 as (_ & Ht). rewrite Hs, Ht, Htr. now rewrite bd_value_tri.
   Qed.
+
+  Lemma propagate_step f k dirty st :
+    propagate BODY UNKNOWN PROG (S f) k dirty st =
+    match nth_error dirty k with
+    | None => Some st
+    | Some c => let (st', ws) := run_cbs BODY UNKNOWN PROG st c in
+                propagate BODY UNKNOWN PROG f (S k) (add_dirty ws dirty) st'
+    end.
+  Proof. reflexivity. Qed.
+
+  Lemma select_idle_some idle : select_idle idle <> None.
+  Proof.
+    unfold SortDefs.select_idle. destruct idle as [|i|]; try discriminate.
+    destruct (i =? PROG); discriminate.
+  Qed.
+
+  Lemma sel_eqb_eq a b : sel_eqb a b = true -> a = b.
+  Proof. destruct a as [[|]|], b as [[|]|]; cbn; intros H; try discriminate; reflexivity. Qed.
+
+  (* symbolic execution of one propagation: the control flow depends on the channel values
+     only through select_tr / select_idle, which are case-split beforehand *)
+  Ltac red1 := cbn -[propagate SortDefs.select_tr SortDefs.select_idle].
+  Ltac rw :=
+    repeat match goal with
+           | H : SortDefs.select_tr _ _ _ = _ |- _ => rewrite H
+           | H : SortDefs.select_idle _ _ = _ |- _ => rewrite H
+           end.
+  Ltac step := rewrite propagate_step; red1; rw; red1.
+  Ltac fin :=
+    eexists; split; [reflexivity|];
+    split; [|repeat split; reflexivity];
+    unfold winv, tr_of, tri_of; red1; rw; red1;
+    split; [reflexivity|];
+    right; split; [reflexivity || congruence|]; split; [reflexivity || congruence|];
+    first [ left; repeat split; (reflexivity || congruence) | right; split; (reflexivity || congruence) ].
+  Ltac contra :=
+    try discriminate;
+    try match goal with H : SortDefs.select_idle _ ?i = None |- _ => exfalso; exact (select_idle_some i H) end;
+    try match goal with H : (if mux0_unevaluated _ then _ else _) = true |- _ => cbn in H; discriminate end;
+    try congruence.
+  (* ss tt idle: the channel values before the event; nss ntt nidle: after the writes *)
+  Ltac go ss tt idle nss ntt nidle :=
+    unfold SortDefs.cpu_event, written; red1;
+    destruct (select_tr ss tt) as [[|]|] eqn:?Eo0;
+    destruct (select_idle idle) as [[|]|] eqn:?Eo1;
+    destruct (select_tr nss ntt) as [[|]|] eqn:?En0;
+    destruct (select_idle nidle) as [[|]|] eqn:?En1;
+    contra;
+    repeat match goal with H : _ /\ _ |- _ => destruct H end; subst;
+    contra;
+    repeat step; fin.
+  Ltac cases Hinv ss tt idle nss ntt nidle :=
+    destruct Hinv as [Hinv | (?H0a & ?H0b & [Hinv | Hinv])];
+    [ go ss tt idle nss ntt nidle | go ss tt idle nss ntt nidle | go ss tt idle nss ntt nidle ].
+
+  (* One admissible event: the propagation terminates, re-establishes the invariant, and leaves
+     the three CPU channels at the values written. *)
+  Lemma wiring_step st b :
+    winv st -> batch_ok BODY st b = true ->
+    exists st', cpu_event st b = Some st' /\ winv st' /\ cin_values st' = cin_values (written st b).
+  Proof.
+    intros Hinv Hok.
+    destruct st as [ss tt idle tr tri s0 s1 sv].
+    unfold winv, tr_of, tri_of in Hinv. cbn [w_ss w_tt w_idle w_tr w_tri w_sel0 w_sel1 w_sval] in Hinv.
+    destruct Hinv as (Hsv & Hinv). subst sv.
+    unfold batch_ok in Hok.
+    apply andb_true_iff in Hok. destruct Hok as (Hok & Hc3).
+    apply andb_true_iff in Hok. destruct Hok as (Hok & Hc2).
+    apply andb_true_iff in Hok. destruct Hok as (Hc0 & Hc1).
+    unfold cin_values.
+    destruct b as [|[c1 v1] [|[c2 v2] [|[c3 v3] [|[c4 v4] r]]]].
+    - (* no write *)
+      cbn. eexists. split; [reflexivity|]. split; [|reflexivity].
+      unfold winv, tr_of, tri_of. cbn. split; [reflexivity | assumption].
+    - destruct c1; cbn -[SortDefs.select_tr] in Hc0, Hc1, Hc3; try discriminate; try apply sel_eqb_eq in Hc3.
+      + (* SS *) cases Hinv ss tt idle v1 tt idle.
+      + (* TT *) cases Hinv ss tt idle ss v1 idle.
+      + (* IDLE *) cases Hinv ss tt idle ss tt v1.
+    - destruct c1, c2; cbn -[SortDefs.select_tr] in Hc0, Hc1, Hc3; try discriminate; try apply sel_eqb_eq in Hc3.
+      + (* SS TT *) cases Hinv ss tt idle v1 v2 idle.
+      + (* SS IDLE *) cases Hinv ss tt idle v1 tt v2.
+      + (* TT SS *) cases Hinv ss tt idle v2 v1 idle.
+      + (* TT IDLE *) cases Hinv ss tt idle ss v1 v2.
+    - destruct c1, c2, c3; cbn -[SortDefs.select_tr] in Hc0, Hc1, Hc3; try discriminate; try apply sel_eqb_eq in Hc3.
+      + (* SS TT IDLE *) cases Hinv ss tt idle v1 v2 v3.
+      + (* TT SS IDLE *) cases Hinv ss tt idle v2 v1 v3.
+    - (* four writes to three channels: some channel is written twice *)
+      exfalso. destruct c1, c2, c3, c4; cbn in Hc0; rewrite ?andb_false_r in Hc0; discriminate.
+  Qed.
+
+  (* whole histories of one CPU *)
+  Lemma wiring_run h : forall st,
+    winv st -> history_ok BODY UNKNOWN PROG st h = true ->
+    exists st', cpu_run BODY UNKNOWN PROG st h = Some st' /\ winv st' /\
+                cin_values st' = cin_values (fold_left written h st).
+  Proof.
+    induction h as [|b h IH]; intros st Hinv Hok; cbn [history_ok cpu_run fold_left] in *.
+    - exists st. split; [reflexivity|]. split; [exact Hinv | reflexivity].
+    - apply andb_true_iff in Hok. destruct Hok as (Hb & Hrest).
+      destruct (wiring_step st b Hinv Hb) as (st1 & Hev & Hinv1 & Hvals).
+      rewrite Hev in *. destruct (IH st1 Hinv1 Hrest) as (st' & Hrun & Hinv' & Hv').
+      exists st'. split; [exact Hrun|]. split; [exact Hinv'|].
+      rewrite Hv'. clear - Hvals.
+      (* the CPU channels evolve by the writes alone *)
+      revert st1 Hvals. generalize (written st b). induction h as [|b' h IH]; intros w st1 Hv; cbn [fold_left].
+      + exact Hv.
+      + apply IH. unfold cin_values, written in *.
+        inversion Hv as [[H1 H2 H3]]. clear Hv.
+        assert (Hgen : forall b d d' (x y : wires), w_ss x = w_ss y -> w_tt x = w_tt y -> w_idle x = w_idle y ->
+                   let x' := fst (apply_writes b x d) in let y' := fst (apply_writes b y d') in
+                   w_ss x' = w_ss y' /\ w_tt x' = w_tt y' /\ w_idle x' = w_idle y').
+        { clear. induction b as [|[c v] b IHb]; intros d d' x y Ha Hb Hc; cbn [apply_writes fst].
+          - now repeat split.
+          - apply IHb; destruct c; cbn; assumption. }
+        destruct (Hgen b' [] [] st1 w H1 H2 H3) as (G1 & G2 & G3). cbn in G1, G2, G3. now rewrite G1, G2, G3.
+  Qed.
+
+  Theorem wiring_partial h :
+    history_ok BODY UNKNOWN PROG w_init h = true ->
+    exists st', cpu_run BODY UNKNOWN PROG w_init h = Some st' /\
+                cin_values st' = cin_values (fold_left written h w_init) /\
+                w_sval st' = bd_of BODY UNKNOWN PROG st'.
+  Proof.
+    intros Hok. destruct (wiring_run h w_init winv_init Hok) as (st' & Hrun & Hinv & Hv).
+    exists st'. split; [exact Hrun|]. split; [exact Hv|]. now apply winv_value.
+  Qed.
+
+  (* ---------------------------------------------------------------- *)
+  (* all CPUs + sort: the rows of the breakdown trace                  *)
+
+  Definition sysinv (n : nat) (s : system) : Prop :=
+    length (s_cpus s) = n /\ Forall winv (s_cpus s) /\ minv n (s_sort s) /\
+    m_values (s_sort s) = map w_sval (s_cpus s).
+
+  Lemma sysinv_init n : sysinv n (sys_init n).
+  Proof.
+    unfold sysinv, sys_init; cbn. repeat split.
+    - apply repeat_length.
+    - apply Forall_forall. intros w Hw. apply repeat_spec in Hw. subst. apply winv_init.
+    - apply minv_init.
+    - now rewrite map_repeat.
+  Qed.
+
+  Lemma Forall_upd {A} (P : A -> Prop) (l : list A) : forall i x, Forall P l -> P x -> Forall P (upd i x l).
+  Proof.
+    induction l as [|y r IH]; intros [|i] x Hl Hx; cbn [upd]; try constructor; inversion Hl; subst; auto.
+  Qed.
+
+  Lemma sys_run_ok n h : forall s,
+    sysinv n s -> sys_history_ok BODY UNKNOWN PROG s h = true ->
+    exists s', sys_run BODY UNKNOWN PROG s h = Some s' /\ sysinv n s'.
+  Proof.
+    induction h as [|[i b] h IH]; intros s Hinv Hok; cbn [sys_history_ok sys_run fst snd] in *.
+    - exists s. now split.
+    - apply andb_true_iff in Hok. destruct Hok as (Hb & Hrest).
+      destruct Hinv as (Hlen & Hall & Hm & Hvals).
+      unfold sys_step in *.
+      destruct (nth_error (s_cpus s) i) as [w|] eqn:En; [|discriminate].
+      assert (Hi : (i < n)%nat). { rewrite <- Hlen. apply nth_error_Some. congruence. }
+      assert (Hw : winv w). { rewrite Forall_forall in Hall. apply Hall. eapply nth_error_In; eassumption. }
+      destruct (wiring_step w b Hw Hb) as (w' & Hev & Hw' & _).
+      rewrite Hev in *.
+      destruct (step_ok n (s_sort s) i (VInt (w_sval w')) Hm Hi) as (sm' & ws & Hstep & Hm' & Hv' & _).
+      rewrite Hstep in *.
+      apply IH; [|exact Hrest].
+      unfold sysinv; cbn [s_cpus s_sort]. repeat split.
+      + now rewrite upd_length.
+      + now apply Forall_upd.
+      + exact Hm'.
+      + rewrite Hv', Hvals. cbn [to_i64]. symmetry. apply upd_map.
+  Qed.
+
+  Theorem system_rows n h :
+    sys_history_ok BODY UNKNOWN PROG (sys_init n) h = true ->
+    exists s, sys_run BODY UNKNOWN PROG (sys_init n) h = Some s /\
+      length (s_cpus s) = n /\
+      Sorted Z.le (rows_of (s_sort s)) /\
+      Permutation (rows_of (s_sort s)) (map (bd_of BODY UNKNOWN PROG) (s_cpus s)).
+  Proof.
+    intros Hok. destruct (sys_run_ok n h (sys_init n) (sysinv_init n) Hok) as (s & Hrun & Hinv).
+    exists s. split; [exact Hrun|]. destruct Hinv as (Hlen & Hall & Hm & Hvals).
+    split; [exact Hlen|].
+    rewrite (minv_rows _ _ Hm). destruct Hm as (_ & Hs & _). rewrite Hs. split.
+    - apply sorted_ss, isort_ss.
+    - eapply perm_trans; [apply isort_perm|]. rewrite Hvals.
+      assert (E : map w_sval (s_cpus s) = map (bd_of BODY UNKNOWN PROG) (s_cpus s)).
+      { apply map_ext_in. intros w Hw. rewrite Forall_forall in Hall. now apply winv_value, Hall. }
+      rewrite E. apply Permutation_refl.
+  Qed.
 End Wiring.
+
+(* ------------------------------------------------------------------ *)
+(* refutations (nOS-V constants: ST_TASK_BODY = 11, ST_UNKNOWN_SS = 2, ST_PROGRESSING = 100) *)
+
+(* The emulator's own event sequence  OHx ; VTx ; VTp  (a task paused while "Task: In body"
+   is on top of the subsystem stack, as test/emu/nosv/pause.c does): VTp nulls the task type
+   without touching the subsystem, mux0 keeps forwarding the (now null) task type because its
+   select callback hangs on the subsystem channel only, and the sort module receives 0 although
+   select_tr evaluated now would forward the subsystem.  All writes are in the order the
+   emulator performs them. *)
+Definition wit_pause_in_body : list (list (cin * value)) :=
+  [ [(CTT, VNull); (CSS, VNull); (CIDLE, VInt 100)];      (* OHx: the CPU gets a running thread *)
+    [(CSS, VInt 11); (CTT, VInt 77)];                      (* VTx: push "Task: In body", task type 77 *)
+    [(CTT, VNull)] ].                                      (* VTp: task type := null *)
+
+Lemma wiring_refuted_pause :
+  exists st', cpu_run 11 2 100 w_init wit_pause_in_body = Some st' /\
+              w_sval st' = 0 /\ bd_of 11 2 100 st' = 11 /\ w_sval st' <> bd_of 11 2 100 st'.
+Proof. eexists. split; [vm_compute; reflexivity|]. vm_compute. repeat split; discriminate. Qed.
+
+(* ... and the mirror image: resumed (VTr) after the CPU re-evaluated mux0 with a null task
+   type (OHp ; OHr in between): the breakdown keeps showing "Task: In body" instead of the type *)
+Definition wit_resume_in_body : list (list (cin * value)) :=
+  wit_pause_in_body ++
+  [ [(CTT, VNull); (CSS, VNull); (CIDLE, VInt 101)];       (* OHp: no running thread, idle default Resting *)
+    [(CTT, VNull); (CSS, VInt 11); (CIDLE, VInt 100)];      (* OHr *)
+    [(CTT, VInt 77)] ].                                      (* VTr *)
+
+Lemma wiring_refuted_resume :
+  exists st', cpu_run 11 2 100 w_init wit_resume_in_body = Some st' /\
+              w_sval st' = 11 /\ bd_of 11 2 100 st' = 77.
+Proof. eexists. split; [vm_compute; reflexivity|]. vm_compute. split; reflexivity. Qed.
+
+(* The same CPU state (ss = 11, tt = null, idle = 100) is shown as 0 after VTp and as 11 after
+   OHp;OHr: the row value is not a function of the CPU's channels. *)
+Lemma wiring_history_dependent :
+  exists h1 h2 s1 s2,
+    cpu_run 11 2 100 w_init h1 = Some s1 /\ cpu_run 11 2 100 w_init h2 = Some s2 /\
+    cin_values s1 = cin_values s2 /\ w_sval s1 <> w_sval s2.
+Proof.
+  exists wit_pause_in_body,
+         (wit_pause_in_body ++ [[(CTT, VNull); (CSS, VNull); (CIDLE, VInt 101)];
+                                [(CTT, VNull); (CSS, VInt 11); (CIDLE, VInt 100)]]).
+  eexists. eexists. split; [vm_compute; reflexivity|]. split; [vm_compute; reflexivity|].
+  vm_compute. split; [reflexivity | discriminate].
+Qed.
+
+(* The hazard of DESIGN 6.20: were idle to enter the dirty list before the subsystem, tri would
+   be handed to the sort module before tr is recomputed.  Not producible by the emulator
+   (model_cpu.c connects the channels in enum order, idle last), but it shows that
+   [idle_last] in [batch_ok] is needed. *)
+Lemma wiring_order_needed :
+  exists st', cpu_run 11 2 100 w_init
+                [ [(CTT, VNull); (CSS, VInt 6); (CIDLE, VInt 100)];
+                  [(CIDLE, VInt 100); (CSS, VInt 7)] ] = Some st' /\
+              w_tri st' = VInt 7 /\ w_sval st' = 6 /\ bd_of 11 2 100 st' = 7.
+Proof. eexists. split; [vm_compute; reflexivity|]. vm_compute. repeat split. Qed.
